@@ -13,14 +13,16 @@ Theorem inventory_covered :
   forall s, In s sites ->
     exists r, site_row s = Some r /\ gs_track s = r_track r /\ gs_guard s = r_guard r /\
       (class_await (r_class r) = AwWaitGroup -> gs_track s <> "untracked") /\
-      (class_guarded (r_class r) = true -> gs_guard s <> "").
+      (class_guarded (r_class r) = true -> gs_guard s <> "") /\
+      gs_done s <> DoneSome.
 Proof.
   intros s Hs. pose proof inventory_covered_b as H. rewrite forallb_forall in H. specialize (H s Hs).
   unfold site_covered in H. destruct (site_row s) as [r|]; [|discriminate]. exists r. split; [reflexivity|].
   unfold track_ok in H. repeat (apply andb_true_iff in H; destruct H as [H ?]).
-  apply String.eqb_eq in H. split; [exact H|]. split; [apply String.eqb_eq; assumption|]. split.
+  apply String.eqb_eq in H. split; [exact H|]. split; [apply String.eqb_eq; assumption|]. split; [|split].
   - intro A. match goal with X : match class_await (r_class r) with _ => _ end = true |- _ => rewrite A in X; apply negb_true_iff in X; apply String.eqb_neq in X; exact X end.
   - intro A. match goal with X : (if class_guarded (r_class r) then _ else _) = true |- _ => rewrite A in X; apply negb_true_iff in X; apply String.eqb_neq in X; exact X end.
+  - intro A. match goal with X : done_ok (gs_done s) = true |- _ => rewrite A in X; discriminate end.
 Qed.
 
 (* every class is awaited in one of the accepted ways, and an awaiting parent is itself awaited by Close
@@ -78,7 +80,7 @@ Proof. intros F P. unfold cl_ok. rewrite F, P. auto. Qed.
 Lemma inv_set_closer d s t v ot od :
   inv d s -> ctor_done s = true -> cl_ok s v -> (d_once d = OnceSync -> v = CReturned -> od = true) ->
   (od = true -> flag s = true /\ pre s = 0) -> (once_done s = true -> od = true) ->
-  inv d {| flag := flag s; ctor_done := ctor_done s; pre := pre s; post := post s; closers := upd (closers s) t v;
+  inv d {| flag := flag s; ctor_done := ctor_done s; pre := pre s; post := post s; leaked := leaked s; closers := upd (closers s) t v;
            once_taken := ot; once_done := od; panicked := panicked s |}.
 Proof.
   intros (P & Q & FC & AC & CL & OD & OS) CD CV NR ODN MON. unfold inv; simpl. repeat split; auto.
@@ -92,10 +94,10 @@ Qed.
 Lemma step_inv d s e s' : good d -> inv d s -> step d s e = Some s' -> inv d s'.
 Proof.
   intros [G1 G2] I0 H. pose proof I0 as (P & Q & FC & AC & CL & OD & OS).
-  destruct e as [| | | |t|t|t|t|t|t|t]; simpl in H.
+  destruct e as [| | | | |t|t|t|t|t|t|t]; simpl in H.
   - (* ECtorDone *) injection H as <-. unfold inv; simpl. repeat split; auto; try (apply OD; assumption).
   - (* ESpawn *)
-    assert (NF: flag s = false -> inv d {| flag := flag s; ctor_done := ctor_done s; pre := S (pre s); post := post s; closers := closers s;
+    assert (NF: flag s = false -> inv d {| flag := flag s; ctor_done := ctor_done s; pre := S (pre s); post := post s; leaked := leaked s; closers := closers s;
                         once_taken := once_taken s; once_done := once_done s; panicked := panicked s |}).
     { intro F. unfold inv; simpl. repeat split; auto.
       - intro t. specialize (CL t). unfold cl_ok in *; simpl. destruct (closers s t); simpl in *; try tauto; try (destruct CL; congruence); congruence.
@@ -106,16 +108,18 @@ Proof.
     + congruence.
     + destruct (ctor_done s) eqn:C; [discriminate|].
       destruct (flag s) eqn:F; [specialize (FC eq_refl); congruence|]. injection H as <-. apply NF. reflexivity.
-  - (* EExitPre *) destruct (pre s) as [|n] eqn:E; [discriminate|]. injection H as <-. unfold inv; simpl. repeat split; auto.
+  - (* EExitPre *) destruct (pre s) as [|n] eqn:E; [discriminate|]. destruct (Nat.leb (S n) (leaked s)); [discriminate|]. injection H as <-. unfold inv; simpl. repeat split; auto.
     + intro t. specialize (CL t). unfold cl_ok in *; simpl. destruct (closers s t); simpl in *; try tauto; destruct CL; congruence.
     + apply OD; assumption.
     + exfalso. match goal with X : once_done s = true |- _ => apply OD in X; destruct X; discriminate end.
   - (* EExitPost *) rewrite Q in H. discriminate.
+  - (* EExitLeak *) destruct (negb (d_done_all d) && Nat.ltb (leaked s) (pre s)); [|discriminate]. injection H as <-.
+    unfold inv; simpl. repeat split; auto; try (apply OD; assumption).
   - (* ECloseEnter *)
     destruct (negb (ctor_done s)) eqn:C'; [discriminate|]. apply negb_false_iff in C'. pose proof C' as C.
     assert (H': match d_once d with
                 | OnceSync => if once_taken s then Some (set_closer s t COnceBlocked)
-                              else Some {| flag := flag s; ctor_done := ctor_done s; pre := pre s; post := post s; closers := upd (closers s) t CEntered;
+                              else Some {| flag := flag s; ctor_done := ctor_done s; pre := pre s; post := post s; leaked := leaked s; closers := upd (closers s) t CEntered;
                                            once_taken := true; once_done := once_done s; panicked := panicked s |}
                 | OnceChanSelect => if flag s then Some (set_closer s t CEarly) else Some (set_closer s t CEntered)
                 | OnceNone => Some (set_closer s t CEntered)
@@ -300,7 +304,7 @@ Proof. intros F P. unfold cl2. rewrite F, P. auto. Qed.
 
 Lemma inv2_set s t v ot od pn po cd :
   inv2 s -> cl2 s v ->
-  inv2 {| flag := flag s; ctor_done := cd; pre := pre s; post := po; closers := upd (closers s) t v;
+  inv2 {| flag := flag s; ctor_done := cd; pre := pre s; post := po; leaked := leaked s; closers := upd (closers s) t v;
           once_taken := ot; once_done := od; panicked := pn |}.
 Proof.
   intros I CV x. simpl. destruct (Nat.eq_dec x t) as [->|N]; [rewrite upd_same|rewrite upd_other by exact N].
@@ -315,21 +319,22 @@ Proof. intros I C F P x. rewrite C. eapply cl2_ext; eauto. Qed.
 Lemma step_inv2 d s e s' : inv2 s -> step d s e = Some s' -> inv2 s'.
 Proof.
   intros I H.
-  destruct e as [| | | |t|t|t|t|t|t|t]; simpl in H.
+  destruct e as [| | | | |t|t|t|t|t|t|t]; simpl in H.
   - injection H as <-. eapply inv2_same_closers; eauto.
-  - assert (NF: flag s = false -> inv2 {| flag := flag s; ctor_done := ctor_done s; pre := S (pre s); post := post s; closers := closers s;
+  - assert (NF: flag s = false -> inv2 {| flag := flag s; ctor_done := ctor_done s; pre := S (pre s); post := post s; leaked := leaked s; closers := closers s;
                         once_taken := once_taken s; once_done := once_done s; panicked := panicked s |}).
     { intros F x. simpl. specialize (I x). unfold cl2 in *; simpl. destruct (closers s x); simpl in *; try tauto; try (destruct I; congruence); congruence. }
     destruct (d_guard d).
     + destruct (flag s) eqn:F; injection H as <-; [exact I|apply NF; reflexivity].
     + destruct (flag s) eqn:F; injection H as <-; [eapply inv2_same_closers; eauto|apply NF; reflexivity].
     + destruct (ctor_done s); [discriminate|]. destruct (flag s) eqn:F; injection H as <-; [eapply inv2_same_closers; eauto|apply NF; reflexivity].
-  - destruct (pre s) as [|n] eqn:E; [discriminate|]. injection H as <-. intro x. simpl. specialize (I x). unfold cl2 in *; simpl.
+  - destruct (pre s) as [|n] eqn:E; [discriminate|]. destruct (Nat.leb (S n) (leaked s)); [discriminate|]. injection H as <-. intro x. simpl. specialize (I x). unfold cl2 in *; simpl.
     destruct (closers s x); simpl in *; try tauto; destruct I; congruence.
   - destruct (post s); [discriminate|]. injection H as <-. eapply inv2_same_closers; eauto.
+  - destruct (negb (d_done_all d) && Nat.ltb (leaked s) (pre s)); [|discriminate]. injection H as <-. eapply inv2_same_closers; eauto.
   - destruct (negb (ctor_done s)); [discriminate|].
     assert (X: exists v ot, (v = CEntered \/ v = COnceBlocked \/ v = CEarly) /\
-               s' = {| flag := flag s; ctor_done := ctor_done s; pre := pre s; post := post s; closers := upd (closers s) t v;
+               s' = {| flag := flag s; ctor_done := ctor_done s; pre := pre s; post := post s; leaked := leaked s; closers := upd (closers s) t v;
                        once_taken := ot; once_done := once_done s; panicked := panicked s |}).
     { unfold set_closer in H. destruct (closers s t); try discriminate; destruct (d_once d); try destruct (once_taken s); try destruct (flag s);
         injection H as <-; eauto 10. }
@@ -412,7 +417,7 @@ Lemma inv3_set b s t v :
   (forall x, x <> t -> active (closers s x) = false) ->
   cl3 s v ->
   (flag s = true -> in_body v = true \/ pre s = 0) ->
-  inv3 b {| flag := flag s; ctor_done := ctor_done s; pre := pre s; post := post s; closers := upd (closers s) t v;
+  inv3 b {| flag := flag s; ctor_done := ctor_done s; pre := pre s; post := post s; leaked := leaked s; closers := upd (closers s) t v;
             once_taken := once_taken s; once_done := once_done s; panicked := panicked s |}.
 Proof.
   intros (P & Q & FC & AC & BD & UNI & CL & FB) TB CD OTH CV FV. unfold inv3; simpl. repeat split; auto.
@@ -442,10 +447,10 @@ Lemma step_inv3 b d s e s' :
   step d s e = Some s' -> inv3 b s'.
 Proof.
   intros O G I0 OK H. pose proof I0 as (P & Q & FC & AC & BD & UNI & CL & FB).
-  destruct e as [| | | |t|t|t|t|t|t|t]; simpl in H.
+  destruct e as [| | | | |t|t|t|t|t|t|t]; simpl in H.
   - injection H as <-. unfold inv3; simpl. repeat split; auto.
   - (* ESpawn *)
-    assert (NF: flag s = false -> inv3 b {| flag := flag s; ctor_done := ctor_done s; pre := S (pre s); post := post s; closers := closers s;
+    assert (NF: flag s = false -> inv3 b {| flag := flag s; ctor_done := ctor_done s; pre := S (pre s); post := post s; leaked := leaked s; closers := closers s;
                         once_taken := once_taken s; once_done := once_done s; panicked := panicked s |}).
     { intro F. unfold inv3; simpl. repeat split; auto.
       - intro t. specialize (CL t). unfold cl3 in *; simpl. destruct (closers s t); simpl in *; try tauto; try (destruct CL; congruence); congruence.
@@ -455,10 +460,12 @@ Proof.
     + destruct (ctor_done s) eqn:C; [discriminate|].
       destruct (flag s) eqn:F; [specialize (FC eq_refl); congruence|]. injection H as <-. apply NF. reflexivity.
   - (* EExitPre *)
-    destruct (pre s) as [|n] eqn:E; [discriminate|]. injection H as <-. unfold inv3; simpl. repeat split; auto.
+    destruct (pre s) as [|n] eqn:E; [discriminate|]. destruct (Nat.leb (S n) (leaked s)); [discriminate|]. injection H as <-. unfold inv3; simpl. repeat split; auto.
     + intro t. specialize (CL t). unfold cl3 in *; simpl. destruct (closers s t); simpl in *; try tauto; destruct CL; congruence.
     + intro F. destruct (FB F) as [X|X]; [left; exact X|congruence].
   - rewrite Q in H. discriminate.
+  - destruct (negb (d_done_all d) && Nat.ltb (leaked s) (pre s)); [|discriminate]. injection H as <-.
+    unfold inv3; simpl. repeat split; auto.
   - (* ECloseEnter *)
     apply andb_true_iff in OK. destruct OK as [TB NA]. apply Nat.ltb_lt in TB. rewrite none_active_spec in NA.
     assert (ALL: forall x, active (closers s x) = false).
@@ -608,6 +615,145 @@ Proof.
   - exists [RkCloseRet]. eexists. simpl. rewrite W. split; reflexivity.
 Qed.
 
+(* ---- Done on every path: Close returns ------------------------------------------------------------------- *)
+Definition all_comps : list comp := [CDht; CDual; CFullRT; CProvMgr; CValueStore; CRtRefresh; CProvider; CBuffered; CProvDual; CKeystore; CResettable].
+Lemma comp_done_all_b : forallb comp_done_all all_comps = true.
+Proof. vm_compute. reflexivity. Qed.
+Theorem done_on_every_path c : d_done_all (desc_of c) = true.
+Proof.
+  pose proof comp_done_all_b as B. rewrite forallb_forall in B.
+  assert (In c all_comps) by (destruct c; simpl; tauto). specialize (B c H). destruct c; exact B.
+Qed.
+
+Ltac step_cases H :=
+  repeat match type of H with
+         | context [match ?x with _ => _ end] => destruct x eqn:?; try discriminate
+         | context [if ?x then _ else _] => destruct x eqn:?; try discriminate
+         end.
+
+Lemma step_leaked d s e s' : d_done_all d = true -> step d s e = Some s' -> leaked s' = leaked s.
+Proof.
+  intros D H. destruct e; simpl in H; try rewrite D in H; simpl in H; step_cases H; try discriminate; injection H as <-; reflexivity.
+Qed.
+Lemma run_leaked d evs : forall s s', d_done_all d = true -> run d s evs = Some s' -> leaked s' = leaked s.
+Proof.
+  induction evs as [|e evs IH]; intros s s' D H; simpl in H; [injection H as <-; reflexivity|].
+  destruct (step d s e) as [s1|] eqn:E; [|discriminate]. rewrite (IH s1 s' D H). eapply step_leaked; eauto.
+Qed.
+
+(* once taken, some thread has left CIdle (threads never go back to CIdle) *)
+Definition taken_inv (s : st) : Prop := once_taken s = true -> exists t, closers s t <> CIdle.
+Lemma upd_not_idle f t v x : v <> CIdle -> f x <> CIdle -> upd f t v x <> CIdle.
+Proof. intros V F. unfold upd. destruct (Nat.eqb x t); assumption. Qed.
+Lemma step_taken d s e s' : taken_inv s -> step d s e = Some s' -> taken_inv s'.
+Proof.
+  intros K H. unfold taken_inv in *.
+  destruct e as [| | | | |t|t|t|t|t|t|t]; simpl in H; unfold set_closer in H; step_cases H; injection H as <-; simpl; try exact K;
+    try (intros _; exists t; rewrite upd_same; discriminate);
+    try (intro T; destruct (K T) as [x X]; exists x; apply upd_not_idle; [discriminate|exact X]).
+Qed.
+Lemma run_taken d evs : forall s s', taken_inv s -> run d s evs = Some s' -> taken_inv s'.
+Proof.
+  induction evs as [|e evs IH]; intros s s' K H; simpl in H; [injection H as <-; exact K|].
+  destruct (step d s e) as [s1|] eqn:E; [|discriminate]. eapply IH; [eapply step_taken; eauto|exact H].
+Qed.
+
+Lemma run_app d l1 : forall l2 s, run d s (l1 ++ l2)%list = match run d s l1 with Some s1 => run d s1 l2 | None => None end.
+Proof.
+  induction l1 as [|e l1 IH]; intros l2 s; simpl; [reflexivity|]. destruct (step d s e); [apply IH|reflexivity].
+Qed.
+
+(* the registered goroutines end one by one, then the wait is over and Close returns *)
+Lemma drain d t : forall n s,
+  closers s t = CWaiting -> pre s = n -> post s = 0 -> leaked s = 0 ->
+  exists s', run d s (repeat EExitPre n ++ [EWaitFast t; ECloseRet t])%list = Some s' /\ closers s' t = CReturned /\ panicked s' = panicked s.
+Proof.
+  induction n as [|n IH]; intros s C P Q L.
+  - simpl. rewrite C, P, Q. simpl. rewrite upd_same. eexists. split; [reflexivity|]. simpl. rewrite upd_same. auto.
+  - simpl. rewrite P, L. simpl.
+    destruct (IH {| flag := flag s; ctor_done := ctor_done s; pre := n; post := post s; leaked := leaked s; closers := closers s;
+                    once_taken := once_taken s; once_done := once_done s; panicked := panicked s |}) as (s' & R & C' & P'); simpl; auto.
+    exists s'. simpl in P'. rewrite L in R. auto.
+Qed.
+
+(* The first Close on a running instance returns: whatever was registered ends (calling Done, by the inventory
+   fact), the wait is over, Close returns, and nothing panicked. *)
+Theorem first_close_returns d evs s t :
+  good d -> d_done_all d = true -> run d init evs = Some s -> ctor_done s = true -> (forall x, closers s x = CIdle) ->
+  exists evs' s', run d s evs' = Some s' /\ closers s' t = CReturned /\ panicked s' = false.
+Proof.
+  intros G D H CD IDLE.
+  pose proof (run_inv d evs init s G (inv_init d) H) as (P & Q & _).
+  assert (L: leaked s = 0) by (rewrite (run_leaked d evs init s D H); reflexivity).
+  assert (T: once_taken s = false).
+  { destruct (once_taken s) eqn:E; [|reflexivity]. assert (K: taken_inv init) by (intro X; discriminate).
+    destruct (run_taken d evs init s K H E) as [x X]. elim X. apply IDLE. }
+  destruct G as [G1 G2].
+  set (s2 := {| flag := true; ctor_done := ctor_done s; pre := pre s; post := post s; leaked := leaked s;
+                closers := upd (upd (closers s) t CEntered) t CWaiting;
+                once_taken := match d_once d with OnceSync => true | _ => once_taken s end; once_done := once_done s; panicked := panicked s |}).
+  assert (R2: run d s [ECloseEnter t; ECloseSet t] = Some s2).
+  { simpl. rewrite CD, (IDLE t). simpl. destruct (d_once d) eqn:O; [|congruence|]; rewrite ?T; simpl; rewrite upd_same; rewrite ?O; simpl; rewrite orb_false_r; unfold s2; rewrite ?CD; reflexivity. }
+  assert (DR: exists s', run d s2 (repeat EExitPre (pre s) ++ [EWaitFast t; ECloseRet t])%list = Some s' /\ closers s' t = CReturned /\ panicked s' = panicked s2).
+  { apply drain; unfold s2; simpl; auto. rewrite upd_same. reflexivity. }
+  destruct DR as (s' & R & C & PN).
+  exists (([ECloseEnter t; ECloseSet t] ++ (repeat EExitPre (pre s) ++ [EWaitFast t; ECloseRet t]))%list), s'.
+  split; [|split; [exact C|rewrite PN; exact P]].
+  rewrite run_app, R2. exact R.
+Qed.
+
+(* ---- ... and what a lost Done means ------------------------------------------------------------------------- *)
+Definition stuck_ok (c : cst) : Prop :=
+  match c with CIdle | CEntered | CWaiting | CSleeping | COnceBlocked | CPanicked => True | _ => False end.
+Definition lost_inv (s : st) : Prop :=
+  1 <= leaked s /\ leaked s <= pre s /\ once_done s = false /\ forall t, stuck_ok (closers s t).
+
+Lemma step_lost d s e s' : d_once d <> OnceChanSelect -> lost_inv s -> step d s e = Some s' -> lost_inv s'.
+Proof.
+  intros O (L1 & L2 & OD & ST) H. unfold lost_inv.
+  assert (SET: forall t v ot, stuck_ok v ->
+             lost_inv {| flag := flag s; ctor_done := ctor_done s; pre := pre s; post := post s; leaked := leaked s; closers := upd (closers s) t v;
+                         once_taken := ot; once_done := once_done s; panicked := panicked s |}).
+  { intros t v ot V. unfold lost_inv; simpl. repeat split; auto. intro x. unfold upd. destruct (Nat.eqb x t); [exact V|apply ST]. }
+  destruct e as [| | | | |t|t|t|t|t|t|t]; simpl in H.
+  - injection H as <-. simpl. auto.
+  - step_cases H; injection H as <-; simpl; repeat split; auto; lia.
+  - destruct (pre s) as [|n] eqn:E; [discriminate|]. destruct (Nat.leb (S n) (leaked s)) eqn:LE; [discriminate|].
+    injection H as <-. simpl. apply Nat.leb_gt in LE. repeat split; auto; lia.
+  - step_cases H; injection H as <-; simpl; repeat split; auto.
+  - destruct (negb (d_done_all d) && Nat.ltb (leaked s) (pre s)) eqn:C; [|discriminate]. injection H as <-. simpl.
+    apply andb_true_iff in C. destruct C as [_ C]. apply Nat.ltb_lt in C. repeat split; auto; lia.
+  - unfold set_closer in H. step_cases H; try congruence; injection H as <-; apply SET; exact I.
+  - pose proof (ST t) as X. destruct (closers s t) eqn:CT; try discriminate. injection H as <-.
+    unfold lost_inv; simpl. repeat split; auto. intro x. unfold upd. destruct (Nat.eqb x t); [|apply ST].
+    destruct (match d_once d with OnceChanSelect => flag s | _ => false end); exact I.
+  - destruct (closers s t) eqn:CT; try discriminate. destruct (Nat.eqb (pre s + post s) 0) eqn:Z; [|discriminate]. apply Nat.eqb_eq in Z. lia.
+  - destruct (closers s t) eqn:CT; try discriminate. destruct (Nat.eqb (pre s + post s) 0); [discriminate|]. injection H as <-. apply SET. exact I.
+  - destruct (closers s t) eqn:CT; try discriminate. destruct (Nat.eqb (pre s + post s) 0) eqn:Z; [|discriminate]. apply Nat.eqb_eq in Z. lia.
+  - pose proof (ST t) as X. destruct (closers s t) eqn:CT; try discriminate; contradiction.
+  - pose proof (ST t) as X. destruct (closers s t) eqn:CT; try discriminate; try contradiction.
+    rewrite OD in H. discriminate.
+Qed.
+
+Theorem lost_done_close_never_returns d s :
+  d_once d <> OnceChanSelect -> lost_inv s ->
+  forall evs s', run d s evs = Some s' -> forall t, closers s' t <> CReturned.
+Proof.
+  intros O L evs. revert s L. induction evs as [|e evs IH]; intros s L s' H t; simpl in H.
+  - injection H as <-. destruct L as (_ & _ & _ & ST). specialize (ST t). intro E. rewrite E in ST. exact ST.
+  - destruct (step d s e) as [s1|] eqn:E; [|discriminate]. eapply IH; [eapply step_lost; eauto|exact H].
+Qed.
+
+(* a registered goroutine that ends without Done (possible exactly when the inventory says DoneSome): from then on
+   no Close ever returns *)
+Theorem lost_done_witness :
+  exists s, run desc_provider_lost_done init [ESpawn; ECtorDone; EExitLeak] = Some s /\
+    forall evs s', run desc_provider_lost_done s evs = Some s' -> forall t, closers s' t <> CReturned.
+Proof.
+  eexists. split; [vm_compute; reflexivity|]. apply lost_done_close_never_returns; [discriminate|].
+  unfold lost_inv; simpl. repeat split; auto.
+Qed.
+
 (* ---- the statements of Props/C14.v ---------------------------------------------------------------------------- *)
 Lemma p_close_waits d evs s t :
   d_guard d <> GuardNone -> d_once d <> OnceChanSelect ->
@@ -670,4 +816,19 @@ Lemma p_unguarded_refuted :
   (exists evs s, run desc_rtrefresh_unguarded init evs = Some s /\ closers s 0 = CReturned /\ post s = 1).
 Proof.
   split; [exists rt_panic_trace; exact rt_panic|exists rt_post_trace; exact rt_post].
+Qed.
+
+Lemma p_first_close_returns d evs s t :
+  d_guard d <> GuardNone -> d_once d <> OnceChanSelect -> d_done_all d = true ->
+  run d init evs = Some s -> ctor_done s = true -> (forall x, closers s x = CIdle) ->
+  exists evs' s', run d s evs' = Some s' /\ closers s' t = CReturned /\ panicked s' = false.
+Proof. intros G O. exact (first_close_returns d evs s t (conj G O)). Qed.
+
+(* for the components the hypothesis "Done on every path" is the inventory fact *)
+Lemma p_first_close_returns_comp c evs s t :
+  c <> CValueStore -> run (desc_of c) init evs = Some s -> ctor_done s = true -> (forall x, closers s x = CIdle) ->
+  exists evs' s', run (desc_of c) s evs' = Some s' /\ closers s' t = CReturned /\ panicked s' = false.
+Proof.
+  intro N. destruct (p_components_guarded c N) as [G O].
+  exact (p_first_close_returns (desc_of c) evs s t G O (done_on_every_path c)).
 Qed.
